@@ -235,6 +235,11 @@ impl Property for C14 {
                 let res = decode(*enc, &dmg, true);
                 let verdict: Option<(String, String)> = match res {
                     Err(_) => { rep.probe("damage_detected"); None }
+                    // a segment or checkpoint that lost its tail holds less than was written, whatever a lenient reader makes of
+                    // the rest: "any truncation ... is reported as an error" (bit flips may land in bytes nothing depends on)
+                    Ok(got) if got == *w && matches!(m, Mut::Trunc(_)) && (*enc == 1 || *enc == 2) => {
+                        Some((format!("C14/truncated-image-accepted/{}", enc_name(*enc)), format!("{} image of {} bytes cut to {:?}: open/validate/load accept it as intact (and return the original content)", enc_name(*enc), len, m)))
+                    }
                     Ok(got) if got == *w => { rep.probe("damage_harmless_identical"); None }
                     // WAL: recovery may end early at the damaged entry — a strict prefix of the original is fine
                     Ok(got) if *enc == 0 && got.len() < w.len() && got[..] == w[..got.len()] => { rep.probe("damage_detected"); None }
